@@ -14,25 +14,49 @@ OBLIGATIONS = [NS + t for t in [
     "es_first_call_accepted", "no_valid_never_patience_stops", "es_train_stops",
 ]] + ["NanoVerif.Boost." + t for t in [
     "fold_keeps_round_learners", "fold_round_le_learners", "fold_model_is_snapshot_model",
+    "fit_monitor_history", "fit_keeps_last_accepted", "fit_patience_stop", "fitObs_keeps_round_learners",
+    "loopTrace_is_loop", "pickBest_none_iff", "pickBest_first_min", "roundEv_spec",
     "predict_append", "averaged_model_predicts_mean",
 ]]
 TRUSTED = [
-    "Lean 4.33.0 kernel + the Mathlib modules imported by Props/C11 (Order.Field.Basic, Tactic.Linarith, Tactic.Ring)",
+    "Lean 4.33.0 kernel + the Mathlib modules imported by Props/C11 (Order.Field.Basic, Data.List.Induction, Tactic.Linarith, "
+    "Tactic.Ring, Tactic.FieldSimp, Tactic.NormNum)",
     "axioms: at most propext, Classical.choice, Quot.sound (audited per theorem on every run)",
     "tools/props/c11.py translate(): C++ if-chain of early_stopping_t::done -> NanoVerif/Gen/EarlyStopping.lean (regenerated "
     "on every run; the theorems are stated over the generated definition)",
-    "hand-written round-loop skeleton NanoVerif/Model/Boost.lean of gboost fit (model.cpp, result.cpp) — tied to the code by "
-    "textual anchors of the mirrored statements (static_checks) and by the fit-level statistics recomputation (oracle), not "
-    "by a differential run",
-    "harness/c11.cpp, the python history oracle and statistics recomputation in tools/props/c11.py; g++/libstdc++/Eigen",
+    "hand-written round-loop skeleton NanoVerif/Model/Boost.lean of gboost ::fit (model.cpp, result.cpp). TIED BY A DIFFERENTIAL "
+    "RUN (family gbloop, needs hook H3 = macro NANO_VERIF_GBOOST_TRACE of include/nano/verif.h; without it the ops report "
+    "`skipped` and only the anchors below remain): real gboost_model_t::fit calls with the trace sink installed; the model is "
+    "driven by the logged oracle answers (per-prototype fit scores, gstate.x().min(), mean train/validation errors, statistics "
+    "rows, fold biases) and must reproduce bit-exactly, for every fold fit of every trial: the answer and the monitor's "
+    "round()/value() after the call on the bias-only model and after every round, the chosen prototype and best_score, the "
+    "no-learner / scaling-failure / done / max_rounds exit (and that no further round was executed), the number of learners "
+    "after every append, optimum.round() = the argument of result.done, which appended learners result_t::done keeps (by "
+    "object identity, before wlearner::merge) and which statistics rows, which call's per-sample tensor optimum.values() is, "
+    "and the averaged bias, 1/folds and the number of concatenated learners of gboost_model_t::fit",
+    "STILL ANCHORS ONLY (static_checks: the mirrored statements are pinned textually): the prediction loop of do_predict "
+    "(bias + every learner adds), the scaling of the concatenated learners by 1/folds (both covered numerically by the `fit` "
+    "family: predictions of the final model against the mean of the fold models), gboost::mean_error's denominator, and the "
+    "statements of the loop between the trace points (a statement added between two trace points that does not change a "
+    "logged value is invisible to the differential run)",
+    "hook H3 itself (hooks/H3-gboost-trace.patch: add-only NANO_VERIF_TRACE lines + forwarding of the thread-local sink to "
+    "the worker threads that fit the folds): the trace is taken to report the values the surrounding statements use; the "
+    "harness rejects (`bad-trace`) any record sequence that does not follow the statement order of the loop",
+    "harness/c11.cpp (incl. the mapping of learner addresses to (round, prototype) ids and the matching of traces to "
+    "(trial, fold) by hyper-parameters + validation samples), the python history / loop oracles and the statistics "
+    "recomputation in tools/props/c11.py; g++/libstdc++/Eigen",
 ]
 ASSUMPTIONS = [
     "exact arithmetic (ordered field) in the theorems; the driver runs the same generated definition at IEEE double",
     "the initial m_value = DBL_MAX enters the theorems as the hypothesis that an observed validation error is below v0 - epsilon",
-    "mean_error over the samples is an input of the monitor model (train/valid value); the harness builds tensors whose mean is "
-    "exactly the intended value (1, 2 or 4 equal entries)",
-    "wlearner::merge after result_t::done (re-association of weak learners with equal features) is not modelled; it is covered "
-    "by the recomputation of the statistics from the stored fold models only",
+    "mean_error over the samples is an input of the monitor model (train/valid value); the `es` harness builds tensors whose "
+    "mean is exactly the intended value (1, 2 or 4 equal entries); in the traced fits the logged mean errors are oracle answers",
+    "everything numeric of a boosting round (gradients, sub-sampling, the weak-learner fits, the scaling solver, shrinkage, the "
+    "loss evaluation) is an oracle answer of the loop model: the theorems hold for every such answer, the differential run "
+    "feeds the logged ones",
+    "wlearner::merge after result_t::done and after the fold concatenation (re-association of weak learners with equal "
+    "features) is not modelled: the trace observes the learners before it; its effect is covered by the recomputation of the "
+    "statistics from the stored fold models and by the prediction comparison only",
     "the numeric quality of the fits (solver convergence) is not claimed",
 ]
 RULE = ("early stopping: exhaustive call histories over the alphabet {0, eps/2, eps, 2eps, 1} for the validation error x one "
@@ -40,8 +64,12 @@ RULE = ("early stopping: exhaustive call histories over the alphabet {0, eps/2, 
         "validation samples, all 2^L training patterns without (quick: L<=6, thorough: L<=7 and a seeded twentieth of L=8), eps in "
         "{1e-6, 2^-10}; random longer histories with arbitrary values, arbitrary learner counts and non-finite errors; "
         "full fits of gboost and linear models on random small datasets with every reported statistic recomputed from the stored "
-        "models. A history is non-trivial when it contains an accepted and a rejected call (judged by the python oracle's replay); "
-        "every fit has >= 2 folds and is counted; distinct by op text")
+        "models; traced gboost fits (gbloop, hook H3; quick 60, thorough 200 full fits, each trials x folds fold fits) whose "
+        "parameters are biased towards every exit of the round loop (first call stops, training error below eps, patience, "
+        "max_rounds, no learner, scaling failure — counted per fold fit in distribution as gbloop-fold-fits/exit-*): the loop "
+        "model replays the logged oracle answers and must reproduce every logged decision exactly; the python oracle re-derives "
+        "them from the property statement. A history is non-trivial when it contains an accepted and a rejected call (judged by "
+        "the python oracle's replay); every fit has >= 2 folds and is counted; distinct by op text")
 FLAVOUR = {"quick": "plain", "thorough": "asan"}
 EXHAUSTIVE = {"quick": True, "thorough": True}
 RTOL = 0.0
@@ -453,9 +481,33 @@ def gen_fit(rng, tier):
     return ops
 
 
+def gen_gbloop(rng, tier):
+    """full gboost fits observed through the trace hook H3: the arguments are those of `fit gboost`; the parameters are
+    biased towards every way of leaving the round loop (first call stops: large epsilon; training error below epsilon;
+    patience; max_rounds; no learner: only table learners without categorical features; scaling failure: sub-sampled fits)"""
+    ops = []
+    for k in range(60 if tier == "quick" else 200):
+        task, loss = _task_loss(rng)
+        samples = rng.range(24, 70)
+        d, ncat = rng.range(1, 3), rng.range(0, 2)
+        folds = rng.range(2, 4)
+        protos = rng.shuffle(PROTOS)[:rng.range(1, 3)]
+        if ncat == 0 and rng.below(8) != 0:
+            protos = [p for p in protos if "table" not in p] or ["stump"]
+        shrink = rng.choice(["off", "off", "off", "local", "global"])
+        ops.append("gbloop {} {} {} {} {} {} {} {} {} {} {} {} {} {} {} {} {}".format(
+            rng.below(1 << 30), samples, d, ncat, task, loss, folds, rng.below(1025),
+            rng.choice([10, 10, 12, 20, 40]), rng.choice([1, 2, 3, 4, 5, 12, 50]),
+            f2h(rng.choice([1e-6, 1e-3, 1e-2, 0.05, 0.3, 1.0])),
+            rng.choice(["gboost", "gboost", "tboost"]), shrink,
+            rng.choice(["off", "off", "subsample", "bootstrap", "wei_loss_bootstrap", "wei_grad_bootstrap"]),
+            ",".join(protos), f2h(rng.choice([0.0, 0.05, 0.3, 1.0])), rng.choice([10, 16, 100])))
+    return ops
+
+
 def gen(rng, tier):
     os.makedirs(HARNESS_ENV["TMPDIR"], exist_ok=True)
-    return _corpus() + gen_fit(rng, tier) + gen_es(rng, tier)
+    return _corpus() + gen_fit(rng, tier) + gen_gbloop(rng, tier) + gen_es(rng, tier)
 
 
 # ---------------------------------------------------------------------------------------------------------
@@ -488,9 +540,9 @@ def mean_of(x, count):
     return acc / max(count, 1)
 
 
-def expected_history(eps, pat, nvalid, calls, ntrain=1):
+def expected_history(eps, pat, nvalid, calls, ntrain=1, states=None):
     """answers, reported round / value / index of the reported call (0 = none yet), and whether an accepted and a
-    rejected validation improvement occurred"""
+    rejected validation improvement occurred; `states` (a list) receives what is reported after every call"""
     rep_round, rep_value, rep_call = 0, DBL_MAX, 0      # nothing accepted yet: round 0, value DBL_MAX
     answers = []
     seen_acc = seen_rej = False
@@ -511,6 +563,8 @@ def expected_history(eps, pat, nvalid, calls, ntrain=1):
             rep_round, rep_value, rep_call = learners, valid, k + 1
         rounds_since = learners - rep_round
         answers.append(small_train or (not accepted and rounds_since >= pat))
+        if states is not None:
+            states.append((rep_round, rep_value, rep_call))
     return answers, rep_round, rep_value, rep_call, (seen_acc and seen_rej)
 
 
@@ -550,7 +604,218 @@ def oracle(op, res):
         return oracle_es(op, res)
     if fam == "fit":
         return oracle_fit(op, res)
+    if fam == "gbloop":
+        return oracle_gbloop(op, res)
     return f"unknown family {fam}"
+
+
+# ---------------------------------------------------------------------------------------------------------
+# the property oracle for the traced round loop (hook H3), coded from the statement: the fold stops exactly when the
+# training error drops below epsilon or no validation improvement larger than epsilon was accepted in the last `patience`
+# rounds (or no learner fits / the scaling fails / max_rounds is reached), reports the round of the last accepted
+# improvement with that round's values, and that round is the number of weak learners (and statistics rows - 1) it keeps:
+# the first ones, in the order they were appended. Inputs: the oracle answers the implementation logged (augmented op);
+# judged: the decisions it logged (result).
+
+GB_NARGS = 17
+EPS_MACH = 2.0 ** -52
+GB_SEEN = {}     # how the traced fold fits left the round loop (filled by the oracle, reported by distribution())
+
+
+def same(a, b):
+    return a == b or (a != a and b != b)
+
+
+class GbFit:
+    pass
+
+
+def parse_gbloop(aug, res):
+    """-> (header, [GbFit], averaging) with the oracle answers (aug) and the logged decisions (res) of every fold fit"""
+    a = _R(aug); a.i = 1 + GB_NARGS
+    a.expect("H3")
+    trials, folds, optimum = a.int(), a.int(), a.int()
+    r = _R(res)
+    r.expect("ok")
+    fits = []
+    for _ in range(trials * folds):
+        f = GbFit()
+        a.expect("F"); r.expect("F")
+        f.trial, f.fold = a.int(), a.int()
+        if (r.int(), r.int()) != (f.trial, f.fold):
+            raise ValueError("fold order")
+        f.ntrain, f.nvalid, f.max_rounds, f.eps, f.pat, f.protos, f.nofit = a.int(), a.int(), a.int(), a.f(), a.int(), a.int(), a.f()
+        f.train0, f.valid0 = a.f(), a.f()
+        f.stop0, f.learners0, f.round0, f.value0 = r.int(), r.int(), r.int(), r.f()
+        f.rounds = []
+        for _k in range(a.int()):
+            q = GbFit()
+            q.kind = a.s()
+            q.scores = a.fs(a.int())
+            r.expect("R")
+            q.chosen, q.best, q.rkind = r.int(), r.f(), r.s()
+            if q.kind != q.rkind:
+                raise ValueError("round kinds of the two lines differ")
+            if q.kind in "sf":
+                q.xmin, q.epsmach = a.f(), a.f()
+                q.x = a.fs(a.int())
+                q.learners = r.int()
+            if q.kind == "f":
+                q.train, q.valid, q.st_train, q.st_valid = a.f(), a.f(), a.f(), a.f()
+                q.stop, q.es_round, q.es_value = r.int(), r.int(), r.f()
+            f.rounds.append(q)
+        f.st0_train, f.st0_valid, f.fin_learners, f.pub_rows, f.pub_learners = a.f(), a.f(), a.int(), a.int(), a.int()
+        r.expect("E")
+        f.exit, f.fin_round, f.fin_value, f.snap, f.done_round = r.s(), r.int(), r.f(), r.int(), r.int()
+        f.kept = [r.int() for _k in range(r.int())]
+        f.rows = [(r.f(), r.f()) for _k in range(r.int())]
+        fits.append(f)
+    a.expect("M"); r.expect("M")
+    fold_bias = []
+    for _ in range(folds):
+        b = a.fs(a.int())
+        fold_bias.append((b, a.int()))
+    merged = a.int()
+    denom = r.f()
+    bias = r.fs(r.int())
+    concat = r.int()
+    if a.i != len(a.t) or r.i != len(r.t):
+        raise ValueError("trailing tokens")
+    return (trials, folds, optimum), fits, (fold_bias, merged, denom, bias, concat)
+
+
+def oracle_gbfit(f):
+    where = f"trial {f.trial} fold {f.fold}"
+    has_valid = min(f.nvalid, 1)
+    if not (same(f.st0_train, f.train0) and same(f.st0_valid, f.valid0)):
+        return f"{where}: statistics row 0 differs from the mean errors the monitor saw on the bias-only model"
+    calls = [(f.train0, f.valid0, 0)]
+    appended = []                                   # ids of the appended learners, in order
+    expect_exit = None
+    for k, q in enumerate(f.rounds):
+        if expect_exit is not None:
+            return f"{where}: round {k} was executed after the loop had to be left ({expect_exit})"
+        if len(q.scores) != f.protos:
+            return f"{where} round {k}: {len(q.scores)} scores for {f.protos} prototypes"
+        # the weak learner that aligns best: the smallest score, the first one on ties, none when no score is below no-fit
+        best, chosen = f.nofit, -1
+        for i, sc in enumerate(q.scores):
+            if sc < best:
+                best, chosen = sc, i
+        if chosen != q.chosen or not same(best, q.best):
+            return (f"{where} round {k}: prototype {q.chosen} (score {q.best!r}) was chosen, the best of the scores "
+                    f"{q.scores} is prototype {chosen} ({best!r})")
+        if chosen < 0:
+            if q.kind != "n":
+                return f"{where} round {k}: no prototype could be fitted but the round went on"
+            expect_exit = "nolearner"
+            continue
+        if q.kind == "n":
+            return f"{where} round {k}: a weak learner was fitted but the loop was left as if none was"
+        appended.append(k * f.protos + chosen)
+        if q.learners != len(appended):
+            return f"{where} round {k}: {q.learners} learners after the append, {len(appended)} were appended"
+        if q.epsmach != EPS_MACH:
+            return f"{where} round {k}: scaling threshold {q.epsmach!r}"
+        if all(v == v for v in q.x) and q.x and min(q.x) != q.xmin:
+            return f"{where} round {k}: minimum scaling factor {q.xmin!r} logged, the factors are {q.x}"
+        failed = q.xmin < EPS_MACH
+        if failed != (q.kind == "s"):
+            return f"{where} round {k}: minimum scaling factor {q.xmin!r} but the scaling-failure branch was {'not ' if failed else ''}taken"
+        if failed:
+            expect_exit = "scalefail"
+            continue
+        if not (same(q.st_train, q.train) and same(q.st_valid, q.valid)):
+            return f"{where} round {k}: statistics row {k + 1} differs from the mean errors the monitor saw"
+        calls.append((q.train, q.valid, len(appended)))
+        if len(appended) != k + 1:
+            return f"{where} round {k}: {len(appended)} learners at the call of round {k}"
+    states = []
+    answers, rnd, val, call, _ = expected_history(f.eps, f.pat, has_valid, calls, states=states)
+    # every call: the answer and what the monitor reports afterwards
+    logged = [(f.stop0, f.round0, f.value0)] + [(q.stop, q.es_round, q.es_value) for q in f.rounds if q.kind == "f"]
+    for j, ((stop, es_round, es_value), want, st) in enumerate(zip(logged, answers, states)):
+        if bool(stop) != want:
+            return (f"{where}: done() answered {bool(stop)} at the call with {calls[j][2]} learners (train {calls[j][0]!r}, "
+                    f"valid {calls[j][1]!r}), the statement requires {want}")
+        if es_round != st[0] or not same(es_value, st[1]):
+            return (f"{where}: after the call with {calls[j][2]} learners the monitor reports round {es_round} / value "
+                    f"{es_value!r}, the last accepted improvement is round {st[0]} / value {st[1]!r}")
+    if any(answers[:-1]):
+        return f"{where}: the loop went on after done() had to answer true at call {answers.index(True)}"
+    if f.learners0 != 0:
+        return f"{where}: {f.learners0} learners at the first call"
+    # why the loop was left
+    if answers[0]:
+        expect_exit = "start"
+        if f.rounds:
+            return f"{where}: rounds were executed although the call on the bias-only model stopped"
+    elif expect_exit is None:
+        if len(calls) > 1 and answers[-1]:
+            expect_exit = "stopped"
+        elif len(f.rounds) == f.max_rounds:
+            expect_exit = "maxrounds"
+        else:
+            return (f"{where}: the loop was left after {len(f.rounds)} of {f.max_rounds} rounds although done() answered false, "
+                    f"a learner was found and the scaling succeeded")
+    if len(f.rounds) > f.max_rounds:
+        return f"{where}: {len(f.rounds)} rounds executed, max_rounds is {f.max_rounds}"
+    if f.exit != expect_exit:
+        return f"{where}: the loop was left by `{f.exit}`, the logged answers require `{expect_exit}`"
+    # what the fold reports and keeps
+    if f.fin_round != rnd or f.done_round != rnd:
+        return (f"{where}: round() = {f.fin_round} / result.done({f.done_round}), the last accepted improvement was made with "
+                f"{rnd} learners")
+    if not same(f.fin_value, val):
+        return f"{where}: value() = {f.fin_value!r}, the last accepted validation error is {val!r}"
+    if f.snap != call:
+        return f"{where}: values() is the per-sample tensor of call {f.snap}, the last accepted call is {call}"
+    if f.kept != appended[:rnd] or len(f.kept) != rnd:
+        return (f"{where}: the fold keeps the learners {f.kept} (appended in this order: {appended}), the optimum round {rnd} "
+                f"requires the first {rnd}")
+    if len(f.rows) != rnd + 1:
+        return f"{where}: {len(f.rows)} statistics rows kept, the optimum round is {rnd}"
+    for j, (t, v) in enumerate(f.rows):
+        if not (same(t, calls[j][0]) and same(v, calls[j][1])):
+            return f"{where}: kept statistics row {j} is ({t!r}, {v!r}), the errors at {j} learners were {calls[j][:2]}"
+    if f.pub_rows != rnd + 1 or f.pub_learners > rnd or f.fin_learners != f.pub_learners:
+        return (f"{where}: the returned fold result holds {f.pub_rows} statistics rows and {f.pub_learners} (merged) learners, "
+                f"the optimum round is {rnd}")
+    return None
+
+
+def oracle_gbloop(aug, res):
+    t = aug.split()
+    if len(t) == 2 + GB_NARGS and t[-1] == "nohook":
+        return None if res == "skipped" else f"no trace hook, result {res[:60]}"
+    if res.startswith("bad-trace"):
+        return f"the trace of the round loop does not follow its statement order: {res}"
+    try:
+        (trials, folds, optimum), fits, (fold_bias, merged, denom, bias, concat) = parse_gbloop(aug, res)
+    except (ValueError, IndexError) as ex:
+        return f"cannot parse the traced fit: {ex!r} :: {res[:80]}"
+    for f in fits:
+        why = oracle_gbfit(f)
+        if why:
+            return why
+        GB_SEEN["gbloop-fold-fits/exit-" + f.exit] = GB_SEEN.get("gbloop-fold-fits/exit-" + f.exit, 0) + 1
+    # the final model: the biases of the optimum trial's folds summed and divided by the number of folds; all their learners
+    if denom != 1.0 / folds:
+        return f"averaging factor {denom!r} for {folds} folds"
+    dims = len(fold_bias[0][0])
+    for j in range(dims):
+        acc = 0.0
+        for b, _ in fold_bias:
+            acc += b[j]
+        if not same(acc * denom, bias[j]):
+            return f"averaged bias[{j}] = {bias[j]!r}, the fold biases {[b[j] for b, _ in fold_bias]} average to {acc * denom!r}"
+    if concat != sum(n for _, n in fold_bias) or merged > concat:
+        return f"{concat} learners concatenated ({merged} after merging), the folds hold {[n for _, n in fold_bias]}"
+    kept = {(f.trial, f.fold): f.pub_learners for f in fits}
+    for fold, (_, n) in enumerate(fold_bias):
+        if n != kept[(optimum, fold)]:
+            return f"fold {fold} of the optimum trial {optimum} contributes {n} learners, its result holds {kept[(optimum, fold)]}"
+    return None
 
 
 # ---------------------------------------------------------------------------------------------------------
@@ -725,6 +990,8 @@ def nontrivial(op):
     if op.startswith("es "):
         eps, pat, ntrain, nvalid, calls = decode_history(op)
         return expected_history(eps, pat, nvalid, calls, ntrain)[4]
+    if op.startswith("gbloop "):
+        return bool(GB_SEEN)        # without hook H3 the traced fits are skipped
     return True
 
 
@@ -735,9 +1002,12 @@ def distribution(ops):
         if t[0] == "es":
             L = (0 if t[6] == "-" else len(t[6])) if t[1] == "a" else int(t[6])
             key = f"es/{t[1]}/{'valid' if t[5] != '0' else 'novalid'}/len{L if L <= 8 else '9+'}"
+        elif t[0] == "gbloop":
+            key = f"gbloop/{t[12]}/{t[13]}/{t[14]}"
         else:
             key = f"fit/{t[1]}"
         d[key] = d.get(key, 0) + 1
+    d.update(GB_SEEN)
     return d
 
 
@@ -747,6 +1017,8 @@ def classify(op, kind, detail):
         return None
     if t[0] == "es":
         return "early_stopping_t::done"
+    if t[0] == "gbloop":
+        return "gboost::fit:round-loop"
     if kind == "crash" and len(t) > 16 and t[1] == "gboost" and "dtree" in t[16].split(","):
         return "crash:gboost-fit:dtree:dataset_t::check(empty)"
     return f"fit/{t[1]}" if len(t) > 1 else "fit"
@@ -769,9 +1041,10 @@ def shrink_candidates(op):
 
 
 # ---------------------------------------------------------------------------------------------------------
-# the hand-written round-loop skeleton (Model/Boost.lean) has no differential run of its own: the statements of the source
-# it mirrors are pinned textually (whitespace-insensitive); an edit of one of them is reported as `static` and triggers
-# the widened search
+# the statements of the source that the hand-written round-loop skeleton (Model/Boost.lean) mirrors are pinned textually
+# (whitespace-insensitive); an edit of one of them is reported as `static` and triggers the widened search. With hook H3 the
+# loop statements are additionally tied by the differential run `gbloop` (see TRUSTED); the prediction loop, the scaling of
+# the concatenated learners and mean_error's denominator are tied by these anchors (and numerically by `fit`) only
 
 ANCHORS = {
     "src/gboost/model.cpp": [
